@@ -33,6 +33,7 @@ def opOfJson (j : Json) : Except String OpKind := do
     | "dim" => return .dim (← nat x)
     | "subview" => return .subview (← nat x)
     | "opaque" => return .opaque (← nat x)
+    | "lit" => return .lit (← int x)
     | t => throw s!"bad op {t}"
   | _ => throw "bad op"
 
@@ -44,6 +45,7 @@ def opToJson : OpKind → Json
   | .dim i => Json.arr #[Json.str "dim", jNat i]
   | .subview r => Json.arr #[Json.str "subview", jNat r]
   | .opaque f => Json.arr #[Json.str "opaque", jNat f]
+  | .lit c => Json.arr #[Json.str "lit", jInt c]
 
 partial def blkOfJson (j : Json) : Except String Blk := do
   let stmts ← arr j
@@ -86,6 +88,8 @@ def step : Handler := fun j => do
   let path ← listOf nat (← field j "path")
   let rule ← str (← field j "rule")
   let ceil ← bool (← field j "ceil")
+  let negGuard := ((field j "negGuard") >>= bool).toOption.getD false
+  let keepDom := ((field j "keepDom") >>= bool).toOption.getD false
   let fresh := freshVar nargs prog
   let bargs := blockArgs nargs prog
   let (anchor, jj) := anchorOf path
@@ -100,13 +104,13 @@ def step : Handler := fun j => do
     | "merge" => do
       perfect := perfectNestAt jj (sub anchor)
       nonneg := nonNegBoundsAt jj (sub anchor)
-      pure (applyAt (mergeLoops fresh jj) prog anchor)
+      pure (applyAt (mergeLoops negGuard fresh jj) prog anchor)
     | "hoist" => pure (applyAt (hoist bargs jj) prog anchor)
     | "dce" => pure (applyAt dce prog path)
     | "moveDim" => do
       perfect := noAffineMinSize bargs prog path
       nonneg := noExistingDimMove bargs prog path
-      pure (moveDim bargs prog path)
+      pure (moveDim keepDom bargs prog path)
     | "noop" => pure (Except.ok prog)
     | r => throw s!"unknown rule {r}"
   match res with
